@@ -542,6 +542,13 @@ def getitem(it, base, idx, node, fr):
             if isinstance(lo, str) and isinstance(hi, str) and base.order is not None:
                 i0, i1 = base.order.index(lo), base.order.index(hi)
                 return frame_select(it, base, base.order[i0:i1 + 1], node)
+        if isinstance(idx, Seq) and idx.kind == "list" and idx.items and all(isinstance(x, Val) and x.term.op == "sym" for x in idx.items):
+            nf_ = base.clone()
+            nf_.cols = {f"<{x.term.args[0]}>": call("col", const(base.name), x.term) for x in idx.items}
+            nf_.order = list(nf_.cols)
+            nf_.open = False
+            nf_.dynamic_columns = True
+            return nf_
         if isinstance(idx, Val) and idx.term.op == "sym" and not idx.series:
             # a column named by a parameter (feature_id, metric_id, ...)
             t_ = call("col", const(base.name), idx.term)
